@@ -104,7 +104,7 @@ Full statement (design §6.16):
       getDeformMatrices (parse (encode f)) a b = some (bonesAlong (parentChain f a b))`.
 It is proved in two halves.  Here: the chain walk on the **parsed records** (`Pbd.toModel f` = the header
 holding exactly the items, links, bone names and matrices of `f`), for every forest, every pair of body ids,
-with termination of the Rust `loop` (fuel `links.len() + 1` never runs out on a forest) — this theorem keeps
+with termination of the Rust `loop` (its step counter `steps < links.len()` never trips on a forest) — this theorem keeps
 its historical name `c16_pbd_chain_partial`.  At the end of this file: the byte-level half
 `fromExisting (encode f) = .ok (toModel f)` (`c16_pbd_parse_encode`: offset tables, out-of-line names and
 matrices, padding) and the composition `c16_pbd_chain`, plus the same for files in any layout the reader
@@ -129,7 +129,9 @@ theorem c16_pbd_chain_partial (f : Spec.Pbd.File) (a b : UInt16) (hwf : Spec.Pbd
   -- its chain ends at a root within `links.length` steps
   have hsome := hforest _ hli
   obtain ⟨L, hL⟩ := Option.isSome_iff_exists.mp hsome
-  obtain ⟨above, habove, hwalk⟩ := Pbd.walk_spec f b hdef _ _ _ (Pbd.ancestors_mono _ _ _ _ hL)
+  -- … which is exactly the number of parent steps the code's step counter allows
+  have hpos : f.links.length - 1 + 1 = f.links.length := by omega
+  obtain ⟨above, habove, hwalk⟩ := Pbd.walk_spec f b hdef (f.links.length - 1) _ _ (by rw [hpos]; exact hL)
     (f.links[start.linkIndex.toNat]) start [] hnext
   refine ⟨start.bones ++ (above.takeWhile (·.bodyId != b)).flatMap (·.bones), ?_, ?_⟩
   · simp [Spec.Pbd.deformBones, hL, habove]
